@@ -33,6 +33,10 @@ def mc(cs, what, expect=None):
     return r
 
 
+def _j(x):
+    return json.dumps(x, sort_keys=True)      # type-strict: 0 is not False is not "0"
+
+
 def owner_of(b, key):
     for c in b["clauses"]:
         e = K.CAT[c]
@@ -59,10 +63,10 @@ def check_one(b, o, baseline_keys):
     slot = "own" if b["mode"] != "sql" else "sql"
     props = t.get("table_properties") or {}
     for k in b["top"]:
-        if k not in t or t[k] != K.value_of(owner_of(b, k), k, slot):
+        if k not in t or _j(t[k]) != _j(K.value_of(owner_of(b, k), k, slot)):
             paths.append("top." + k)
     for k in b["props"]:
-        if k not in props or props[k] != K.value_of(owner_of(b, k), k, slot):
+        if k not in props or _j(props[k]) != _j(K.value_of(owner_of(b, k), k, slot)):
             paths.append("props." + k)
     # nothing else: no clause key at a placement TLC did not compute, no unknown top-level key
     for k in t:
